@@ -112,6 +112,10 @@ def putRec (s : St) (mp : Mp) (r : Rec) : St :=
 def delRec (s : St) (mp : Mp) : St :=
   if s.closed then s else { s with store := adel mp s.store }
 
+/-- State after a successful `fs.Mount(mp)` on instance `f` followed by `fm.fsMap.Store(mp, f)`. -/
+def St.mounted (s : St) (mp : Mp) (f : FsId) : St :=
+  { s with fsMap := ains mp f s.fsMap, live := (f, mp) :: s.live }
+
 /-- `Server.mount`: skip when the mountpoint is in `fsMap`, else `fm.curFs.Mount` and register
 `fm.curFs` as the owner. -/
 def mountCore (s : St) (mp : Mp) (lab : Lab) (ok : Bool) : Out :=
@@ -121,8 +125,7 @@ def mountCore (s : St) (mp : Mp) (lab : Lab) (ok : Bool) : Out :=
     match s.curFs with
     | none => ⟨s, .panic, []⟩
     | some f =>
-      if ok then
-        ⟨{ s with fsMap := ains mp f s.fsMap, live := (f, mp) :: s.live }, .ok, [.mount f mp lab true]⟩
+      if ok then ⟨s.mounted mp f, .ok, [.mount f mp lab true]⟩
       else ⟨s, .err, [.mount f mp lab false]⟩
 
 /-- `restoreFuseInfo`: `bucket.ForEach` in key order, `fm.mount` each record, stop at the first
